@@ -237,6 +237,15 @@ func judgeView(v vfView, tr *vw.Trace) (string, map[string]bool, *vw.Violation) 
 	if fmt.Sprint(announcers(d2)) != fmt.Sprint(an) {
 		return "", el, vw.Violationf("l2-services-disagree", "services sharing %v elect %v and %v", v.IPs, an, announcers(d2))
 	}
+	// ... also a single-stack service holding only the first address (the election key is the first address)
+	if len(v.IPs) > 1 {
+		v1 := v
+		v1.IPs = v.IPs[:1]
+		d3, _ := v1.l2Decisions("single-stack-sharer")
+		if fmt.Sprint(announcers(d3)) != fmt.Sprint(an) {
+			return "", el, vw.Violationf("l2-services-disagree", "a dual-stack service on %v elects %v, a service holding only %s elects %v", v.IPs, an, v.IPs[0], announcers(d3))
+		}
+	}
 	if want == 1 {
 		return an[0], el, nil
 	}
